@@ -186,7 +186,15 @@ def edit_between_solves(ctx, rng, count, clause="not-repeatable"):
             continue
         done += 1
         for prune in (True, False):
+            orig = copy.deepcopy(shared)
             first = impl.solve_inplace(shared, prune, want_nodes=False)
+            if {k: v for k, v in shared.items() if k != "prune_states"} != {k: v for k, v in orig.items() if k != "prune_states"}:
+                # the solve itself edited the caller's description: C10's own clause (here only when run for C10)
+                if clause == "not-repeatable":
+                    ctx.violation("description-changed", {"game": orig, "ops": [[prune, None]]},
+                                  {"changed": [k for k in orig if shared.get(k) != orig[k]], "transition_list_after": shared["transition_list"]})
+                    return
+                break
             s = rng.choice(cand)
             before = copy.deepcopy(shared)
             if rng.random() < 0.5 and len(shared["transition_list"][s]) >= 2:
